@@ -339,3 +339,18 @@ Definition QNum : Num :=
      nmul := fun a b => Qred (a * b); ndiv := fun a b => Qred (a / b);
      nsqrt := q_sqrt; nln := q_ln; nofnat := fun n => inject_Z (Z.of_nat n);
      nltb := fun a b => negb (Qle_bool b a); neqb := Qeq_bool |}.
+
+(* Results of the Q twin in a type that does not mention [QNum], so that vm_compute on an equation
+   never has to normalise the record (strong normalisation of the series under binders explodes). *)
+Inductive qres : Type := QFin (q : Q) | QPInf | QNInf | QNaN | QCplx | QArr | QRaise.
+Definition qshow (r : res QNum) : qres :=
+  match r with
+  | Raise => QRaise
+  | Ret (NS (Fin q)) => QFin q
+  | Ret (NS PInf) => QPInf
+  | Ret (NS NInf) => QNInf
+  | Ret (NS NaN) => QNaN
+  | Ret (NS Cplx) => QCplx
+  | Ret _ => QArr
+  end.
+Definition qf (q : Q) : XR QNum := @Fin QNum q.
